@@ -180,7 +180,8 @@ def generate(cls, rng):
                                     "space", "double_comma", "trailing_slash",
                                     "empty_time", "lower_rule", "two_signs",
                                     "leading_digit", "dot_offset",
-                                    "unicode_letter", "unicode_letter2"])])
+                                    "unicode_letter", "unicode_letter2",
+                                    "time_four_fields"])])
         elif r < 0.97:
             ops.append(["gmt_plus", rng.choice(["GMT", "UTC"]),
                         rng.choice([-11, -3, 1, 3, 9]), rng.random() < 0.5])
@@ -288,9 +289,12 @@ class Env(object):
                 return tz.tzrange(spec["std"], spec["stdoff"])
             sav = spec["dstoff"] - spec["stdoff"]
             so, do = spec["stdoff"], spec["dstoff"]
-            if (so + do) % 7 == 0:
-                # offsets may be given as timedelta as well as seconds
+            # each offset may be given as timedelta or as seconds,
+            # independently of the other
+            if (so + do) % 7 in (0, 1):
                 so = datetime.timedelta(seconds=so)
+            if (so if isinstance(so, int) else 0) % 5 == 0 or \
+                    (spec["stdoff"] + do) % 7 == 0:
                 do = datetime.timedelta(seconds=do)
             return tz.tzrange(spec["std"], so, spec["dst"], do,
                               start=to_rd(spec["start"], spec["start"][-1]),
@@ -392,6 +396,10 @@ MALFORMERS = {
     "two_signs": lambda s: _re.sub(r"^([A-Za-z]+)[+-]?", r"\1+-", s, count=1),
     "leading_digit": lambda s: "5" + s,
     # a letter outside a-z/A-Z inside an abbreviation
+    # a rule time with a surplus ':' field
+    "time_four_fields": lambda s: (s.rsplit("/", 1)[0] if "/" in
+                                   s.rsplit(",", 1)[-1] else s) +
+    "/2:00:00:30" if "," in s else s + ",M3.2.0/2:00:00:30,M11.1.0",
     "unicode_letter": lambda s: s[:1] + "\u00c9" + s[1:],
     "unicode_letter2": lambda s: s[:2] + "\u6771" + s[2:],
     "dot_offset": lambda s: _re.sub(r"([0-9]+)", r"\1.5", s, count=1),
